@@ -6,6 +6,10 @@
 //!   token_indices = `preparsed.token_indices`
 //!   leading/trailing = `key=i;i;i` joined by `,`, keys sorted (hash order removed), `-` if empty
 //!   leaves        = token indices of the CST's token leaves, left to right; `PANIC`, `BADROOT`, `SPANS`, `WIDTH` on anomalies
+//!   flags         = `errs=<n>` | `panic=<where>`
+//!   tree          = the green tree as an S-expression `(Kind child …)`, leaves = raw token indices
+//!   errors        = `token_index|Display of the error` joined by ` ## `, `-` if none
+//!   relabels      = `i:Kind` for every token whose kind `parse_cst` changed (IdentFunction / IdentParameter), `-` if none
 use mimium_lang::compiler::parser::green::GreenNode;
 use mimium_lang::compiler::parser::{self, GreenNodeArena, GreenNodeId, SyntaxKind, Token};
 use mmh::rng::Rng;
@@ -95,6 +99,39 @@ fn leaves(arena: &GreenNodeArena, id: GreenNodeId, out: &mut Vec<(usize, usize)>
     }
 }
 
+fn sexp(arena: &GreenNodeArena, id: GreenNodeId, out: &mut String) {
+    match arena.get(id) {
+        GreenNode::Token { token_index, .. } => out.push_str(&token_index.to_string()),
+        GreenNode::Internal { kind, children, .. } => {
+            out.push('(');
+            out.push_str(&format!("{kind}"));
+            for &c in children {
+                out.push(' ');
+                sexp(arena, c, out);
+            }
+            out.push(')');
+        }
+    }
+}
+
+fn show_errors(errors: &[parser::ParserError]) -> String {
+    if errors.is_empty() {
+        return "-".into();
+    }
+    errors.iter().map(|e| format!("{}|{}", e.token_index, e.detail)).collect::<Vec<_>>().join(" ## ")
+}
+
+fn show_relabels(before: &[Token], after: &[Token]) -> String {
+    let d: Vec<String> = before
+        .iter()
+        .zip(after.iter())
+        .enumerate()
+        .filter(|(_, (a, b))| a.kind != b.kind)
+        .map(|(i, (_, b))| format!("{}:{:?}", i, b.kind))
+        .collect();
+    if d.is_empty() { "-".into() } else { d.join(",") }
+}
+
 pub fn run_case(src: &str) -> String {
     let s = src.to_string();
     let r = std::panic::catch_unwind(move || {
@@ -108,7 +145,7 @@ pub fn run_case(src: &str) -> String {
     });
     let (tokens, pre, t, idx, ld, tr) = match r {
         Ok(x) => x,
-        Err(_) => return format!("{}\t{}\tPANIC\tPANIC\tPANIC\tPANIC\tPANIC\tpanic=front", hex(src), classes(src)),
+        Err(_) => return format!("{}\t{}\tPANIC\tPANIC\tPANIC\tPANIC\tPANIC\tpanic=front\tPANIC\tPANIC\tPANIC", hex(src), classes(src)),
     };
     let toks2 = tokens.clone();
     let r2 = std::panic::catch_unwind(std::panic::AssertUnwindSafe(|| {
@@ -129,13 +166,15 @@ pub fn run_case(src: &str) -> String {
         } else {
             show_nats(&lv.iter().map(|x| x.0).collect::<Vec<_>>())
         };
-        (s, errors.len())
+        let mut tree = String::new();
+        sexp(&arena, root, &mut tree);
+        (s, errors.len(), tree, show_errors(&errors), show_relabels(&tokens, &out_tokens))
     }));
-    let (lv, flags) = match r2 {
-        Ok((s, n)) => (s, format!("errs={n}")),
-        Err(_) => ("PANIC".to_string(), "panic=parse_cst".to_string()),
+    let (lv, flags, tree, errs, rel) = match r2 {
+        Ok((s, n, tree, errs, rel)) => (s, format!("errs={n}"), tree, errs, rel),
+        Err(_) => ("PANIC".to_string(), "panic=parse_cst".to_string(), "PANIC".to_string(), "PANIC".to_string(), "PANIC".to_string()),
     };
-    format!("{}\t{}\t{}\t{}\t{}\t{}\t{}\t{}", hex(src), classes(src), t, idx, ld, tr, lv, flags)
+    format!("{}\t{}\t{}\t{}\t{}\t{}\t{}\t{}\t{}\t{}\t{}", hex(src), classes(src), t, idx, ld, tr, lv, flags, tree, errs, rel)
 }
 
 /// the alphabet of the exhaustive scope: chosen to reach every alternative of `token_parser`
@@ -204,24 +243,27 @@ pub fn run_kinds(kinds: &[parser::TokenKind]) -> String {
     let t = show_tokens(&tokens);
     let (pre, idx, ld, tr) = match r {
         Ok(x) => x,
-        Err(_) => return format!("K\t-\t{t}\tPANIC\tPANIC\tPANIC\tPANIC\tpanic=preparse"),
+        Err(_) => return format!("K\t-\t{t}\tPANIC\tPANIC\tPANIC\tPANIC\tpanic=preparse\tPANIC\tPANIC\tPANIC"),
     };
     let toks2 = tokens.clone();
     let r2 = std::panic::catch_unwind(std::panic::AssertUnwindSafe(|| {
-        let (root, arena, _out, errors) = parser::parse_cst(toks2, &pre);
+        let (root, arena, out, errors) = parser::parse_cst(toks2, &pre);
         let mut lv = vec![];
         leaves(&arena, root, &mut lv);
-        if arena.kind(root) != Some(SyntaxKind::Program) {
-            ("BADROOT".to_string(), errors.len())
+        let mut tree = String::new();
+        sexp(&arena, root, &mut tree);
+        let lvs = if arena.kind(root) != Some(SyntaxKind::Program) {
+            "BADROOT".to_string()
         } else {
-            (show_nats(&lv.iter().map(|x| x.0).collect::<Vec<_>>()), errors.len())
-        }
+            show_nats(&lv.iter().map(|x| x.0).collect::<Vec<_>>())
+        };
+        (lvs, errors.len(), tree, show_errors(&errors), show_relabels(&tokens, &out))
     }));
-    let (lv, flags) = match r2 {
-        Ok((s, n)) => (s, format!("errs={n}")),
-        Err(_) => ("PANIC".to_string(), "panic=parse_cst".to_string()),
+    let (lv, flags, tree, errs, rel) = match r2 {
+        Ok((s, n, tree, errs, rel)) => (s, format!("errs={n}"), tree, errs, rel),
+        Err(_) => ("PANIC".to_string(), "panic=parse_cst".to_string(), "PANIC".to_string(), "PANIC".to_string(), "PANIC".to_string()),
     };
-    format!("K\t-\t{t}\t{idx}\t{ld}\t{tr}\t{lv}\t{flags}")
+    format!("K\t-\t{t}\t{idx}\t{ld}\t{tr}\t{lv}\t{flags}\t{tree}\t{errs}\t{rel}")
 }
 
 fn enumerate_kinds(maxlen: usize, out: &mut impl Write) {
@@ -366,6 +408,32 @@ fn main() {
             let maxlen: usize = args[1].parse().unwrap();
             enumerate_kinds(maxlen, &mut out);
         }
+        Some("tokseq") => {
+            // C04's enumeration: all sequences of <= maxlen spellings of the token alphabet (extracted.json), same order as `c04 enum`
+            let v: serde_json::Value = serde_json::from_str(&std::fs::read_to_string(&args[1]).expect("alphabet file")).expect("json");
+            let key = if args[2] == "core" { "C04_core_alphabet" } else { "C04_alphabet" };
+            let alpha: Vec<String> = v[key].as_array().expect(key).iter().map(|x| x[1].as_str().unwrap().to_string()).collect();
+            let maxlen: usize = args[3].parse().unwrap();
+            let sep = if args[4] == "sep" { " " } else { "" };
+            let (shard, nshards): (usize, usize) = (args[5].parse().unwrap(), args[6].parse().unwrap());
+            let mut counter = 0usize;
+            for len in 0..=maxlen {
+                let total = alpha.len().pow(len as u32);
+                for code in 0..total {
+                    if counter % nshards == shard {
+                        let mut c = code;
+                        let mut parts: Vec<&str> = Vec::with_capacity(len);
+                        for _ in 0..len {
+                            parts.push(&alpha[c % alpha.len()]);
+                            c /= alpha.len();
+                        }
+                        parts.reverse();
+                        writeln!(out, "{}", run_case(&parts.join(sep))).unwrap();
+                    }
+                    counter += 1;
+                }
+            }
+        }
         Some("files") => {
             for p in mmm_files() {
                 if let Ok(s) = std::fs::read_to_string(&p) {
@@ -399,12 +467,12 @@ fn main() {
                 }
                 match unhex(h) {
                     Some(s) => writeln!(out, "{}", run_case(&s)).unwrap(),
-                    None => writeln!(out, "{}\t-\tBADHEX\t-\t-\t-\t-\t-", h).unwrap(),
+                    None => writeln!(out, "{}\t-\tBADHEX\t-\t-\t-\t-\t-\t-\t-\t-", h).unwrap(),
                 }
             }
         }
         _ => {
-            eprintln!("usage: c13 enum <maxlen> [shard nshards] | kinds <maxlen> | rand <seed> <n> <maxparts> | files | lines");
+            eprintln!("usage: c13 enum <maxlen> [shard nshards] | kinds <maxlen> | tokseq <extracted.json> <full|core> <maxlen> <sep|nosep> <shard> <nshards> | rand <seed> <n> <maxparts> | files | lines");
             std::process::exit(2);
         }
     }
